@@ -51,6 +51,7 @@ type Header struct {
 	VK     uint8  `json:"v,omitempty"`
 	Forged bool   `json:"f,omitempty"`
 	Bad    bool   `json:"b,omitempty"`
+	PV     bool   `json:"pv,omitempty"` // Validate panics
 
 	mu   sync.Mutex
 	hash header.Hash
@@ -116,6 +117,9 @@ func (d *Header) Verify(u *Header) error {
 }
 
 func (d *Header) Validate() error {
+	if d.PV {
+		panic("vhdr: scripted panic in Validate")
+	}
 	if d.Bad || d.H == 0 || d.Chain == "" {
 		return ErrInvalid
 	}
@@ -131,20 +135,27 @@ type wire struct {
 	VK     uint8  `json:"v,omitempty"`
 	Forged bool   `json:"f,omitempty"`
 	Bad    bool   `json:"b,omitempty"`
+	PV     bool   `json:"pv,omitempty"`
 }
 
 func (d *Header) MarshalBinary() ([]byte, error) {
-	return json.Marshal(wire{d.Chain, d.H, d.T, d.Prev, d.Salt, d.VK, d.Forged, d.Bad})
+	return json.Marshal(wire{d.Chain, d.H, d.T, d.Prev, d.Salt, d.VK, d.Forged, d.Bad, d.PV})
 }
 
+// PanicBytes makes UnmarshalBinary panic (a hostile payload hitting a decoder bug).
+var PanicBytes = []byte("\x00PANIC")
+
 func (d *Header) UnmarshalBinary(b []byte) error {
+	if bytes.Equal(b, PanicBytes) {
+		panic("vhdr: scripted panic in UnmarshalBinary")
+	}
 	var w wire
 	dec := json.NewDecoder(bytes.NewReader(b))
 	dec.DisallowUnknownFields()
 	if err := dec.Decode(&w); err != nil {
 		return err
 	}
-	d.Chain, d.H, d.T, d.Prev, d.Salt, d.VK, d.Forged, d.Bad = w.Chain, w.H, w.T, w.Prev, w.Salt, w.VK, w.Forged, w.Bad
+	d.Chain, d.H, d.T, d.Prev, d.Salt, d.VK, d.Forged, d.Bad, d.PV = w.Chain, w.H, w.T, w.Prev, w.Salt, w.VK, w.Forged, w.Bad, w.PV
 	d.hash = nil
 	return nil
 }
